@@ -132,7 +132,7 @@ ADDENDA = {
     "C06": "Later additions: accessor indices within matcher arity (R19, 176 sites); block engine addresses the opening statement by "
            "start_idx (R20); no dereference on a path on which the variable is None for certain (R21, path-sensitive, 40 functions, 1 reviewed exception). Also: the process-terminating name-mismatch path of the block engine is enabled for the eight program-unit blocks only (R22); the reader's item constructors agree on recorded state (R23).",
     "C07": "Later additions: definite-None dereference on clean-up paths (R10); the statement ends where the continuation table says (R11).",
-    "C08": "Later additions: only Program.match's end-of-input probe may call reader.next() inside the parser (R13, who-may-call). Also: string engines match the whole string (R14; 1 known finding F56); a program unit's END statement is not reachable as an executable construct (R15; 2 known findings F57); END statements compare the type words (R16; found and fixed F58).",
+    "C08": "Later additions: only Program.match's end-of-input probe may call reader.next() inside the parser (R13, who-may-call). Also: string engines match the whole string (R14; 1 known finding F56); a program unit's END statement is not reachable as an executable construct (R15; 2 known findings F57); WORDClsBase.match with a literal keyword decided as a table (R16).",
     "C09": "Later additions: no instance attribute mutated in place is bound to a module/class-level mutable or mutable default "
            "(R11, 24 bindings); the table registry is wiped as a whole only by ParserFactory.create (R12). Also: memo purity extended to process-wide parser state (R13, 742 functions).",
     "C11": "Later additions: a strict_order block lists only comment-absorbing parts (R11). Also: no reader method calls self.put_item() on an item it discovers (R6); give-back is last-in first-out on every path (R12, path-sensitive stack).",
